@@ -261,3 +261,14 @@ async def coro_awaiting(x):
     await asyncio.sleep(0)
     await asyncio.sleep(0)
     return [x]
+
+
+class LazyAttr:
+    """A non-data descriptor (has __get__, no __set__): what a method becomes when it is replaced by a lazy attribute."""
+
+    def __get__(self, obj, owner=None):
+        return 1
+
+
+class WithLazy:
+    lazy = LazyAttr()
